@@ -178,6 +178,12 @@ impl Envelope {
         for envelope in envelopes {
             for assertion in envelope.assertions_with_predicate(known_values::SSKR_SHARE) {
                 let share = assertion.subject().as_object().unwrap().extract_subject::<SSKRShare>()?;
+                // A share too short to hold the SSKR metadata (identifier, thresholds,
+                // indexes) belongs to no split; reading its identifier would index
+                // out of bounds.
+                if share.data().len() < 5 {
+                    bail!(EnvelopeError::InvalidShares);
+                }
                 let identifier = share.identifier();
                 result.entry(identifier).and_modify(|shares| shares.push(share.clone())).or_insert(vec![share]);
             }
